@@ -157,14 +157,15 @@ def parse_assumptions(out, names):
                 blocks.append(cur)
             cur = []
         elif cur is not None:
-            m = re.match(r'^([A-Za-z_][\w.\']*)\s*:', line)
+            # an axiom entry starts at column 0 with its (qualified) name, optionally followed by
+            # " : type"; the type may continue on indented lines or start on the next line
+            m = re.match(r'^([A-Za-z_][\w.\']*)\s*(:.*)?$', line)
             if m:
                 cur.append(m.group(1))
-            elif line.strip() == '' or not line.startswith(' '):
-                if line.strip() != '' and not line.startswith(' '):
-                    # some other output ends the block
-                    blocks.append(cur)
-                    cur = None
+            elif line.strip() != '' and not line[0].isspace():
+                # some other output ends the block
+                blocks.append(cur)
+                cur = None
     if cur is not None:
         blocks.append(cur)
     return dict(zip(names, blocks)), len(blocks)
